@@ -52,8 +52,11 @@ type App struct {
 	Repo      rule.Repository
 	Processor rule.SetProcessor
 	Factory   mechanisms.MechanismFactory
-	Cache     cache.Cache
-	Conf      *config.Configuration
+	// RuleFactory is the rule factory of the service (what the rule-set processor and the Kubernetes
+	// admission controller create rules with)
+	RuleFactory rule.Factory
+	Cache       cache.Cache
+	Conf        *config.Configuration
 
 	app    *fx.App
 	dir    string
@@ -227,7 +230,7 @@ func start(opts Options) (*App, error) {
 		fx.Supply(config.ConfigurationPath(cfgPath), config.EnvVarPrefix("VERIFNOENV_"), mode),
 		internal.Module,
 		module,
-		fx.Populate(&a.Repo, &a.Processor, &a.Factory, &a.Cache, &a.Conf),
+		fx.Populate(&a.Repo, &a.Processor, &a.Factory, &a.Cache, &a.Conf, &a.RuleFactory),
 	}
 
 	if opts.ConfigMutator != nil {
